@@ -662,7 +662,7 @@ func (c *runner) wordDoc(r *rand.Rand) {
 			res.SetAdd("config_rule", name+":words-one-string")
 			if s, ok := o.val.(string); o.err != nil || !ok || s != whole {
 				sig := "ignorecommas-toplevel-wrong-value"
-				if _, isList := o.val.([]interface{}); isList {
+				if l, isList := o.val.([]interface{}); isList && len(l) > 1 {
 					sig = "ignorecommas-toplevel-comma-still-splits"
 				}
 				res.Violate(sig, "ValueWithConfig(%q, %s): want the single string %q, got %s", text, name, whole, o)
